@@ -310,6 +310,21 @@ def _passes(g, bb, exit_bb, val):
     return "never"
 
 
+def _feasible_error_variants(W, val):
+    """A valuation that fixes the ServerError variant of a workspace call to one the callee cannot produce (all of the
+    callee's error exits are inspected) describes no execution: e.g. the NoSuchClient arm of an inlined error mapping
+    applied to Server::txn, which only ever fails with Other."""
+    for a, vs in val.items():
+        if a[0] != "VARIANT" or a[1][0] != "err":
+            continue
+        x = P.strip_branch(a[1][1])
+        if x[0] == "call" and x[1] in W.prog.bodies:
+            can = server_error_variants(W, x[1])
+            if can is not None and not (set(vs) & can):
+                return False
+    return True
+
+
 class Outcome:
     def __init__(self, site, term, val, phase):
         self.site, self.term, self.val, self.phase = site, term, val, phase
@@ -332,6 +347,8 @@ def handler_outcomes(W, module):
     for site, term in S.exits(W, body):
         post = (site[0] == opbb) or g.may_follow(opbb, site[0])
         for val in g.vals_at(site):
+            if not _feasible_error_variants(W, val):
+                continue
             rt = g.resolve_phis(term, val)
             o = Outcome(site, rt, val, "post" if post else "pre")
             mm = m(pat.adt("Result", "Err", ("0", V("e"))), rt)
@@ -878,18 +895,66 @@ def c15_nopanic(rep, W, rule="C15.NOPANIC"):
 
 
 # =========================================================================== C16
+SCOPE_SERVICE = "actix_web::scope::Scope::<T>::service"
+MAIN = "bin:" + WD.SERVER + "::main::{closure#0}"
+
+
+def _fn_arg_body(W, body, t):
+    """Body of a closure / function item passed as an argument (None if the value is not statically a function)."""
+    k = None
+    if t[0] == "mut":
+        t = t[3]
+    if t[0] == "agg" and isinstance(t[1], tuple) and t[1][0] == "closure":
+        k = t[1][1]
+    elif t[0] == "fn":
+        k = t[1]
+    if k is None:
+        return None
+    return W.prog.bodies.get(("bin:" + k) if body.unit.endswith("-bin") else k) or W.prog.bodies.get(k)
+
+
+def app_factory(W):
+    """The application factory: the closure handed to HttpServer::new in main (identified by role, not by its index)."""
+    mb = W.prog.bodies.get(MAIN)
+    if mb is None:
+        return None
+    for bb, t in mb.calls():
+        if t["callee"].get("def", "").endswith("HttpServer::<F, I, S, B>::new"):
+            return _fn_arg_body(W, mb, W.prov(mb).arg_terms(bb)[0])
+    return None
+
+
+def app_configure(W, fac0):
+    """The closure / function handed to App::configure inside the application factory."""
+    if fac0 is None:
+        return None
+    for bb, t in fac0.calls():
+        if t["callee"].get("def") == "actix_web::app::App::<T>::configure":
+            return _fn_arg_body(W, fac0, W.prov(fac0).arg_terms(bb)[1])
+    return None
+
+
+def registration_tree(W):
+    """(WebServer::config body, term of the one service handed to cfg.service(..)): the whole registration tree -- nested
+    scopes are sub-terms (receiver chains and `.service(..)` arguments)."""
+    cfg = W.body(WD.SERVER + "::WebServer::config")
+    svc = S.sites_of(cfg, "actix_web::config::ServiceConfig::service")
+    if len(svc) != 1:
+        return cfg, None
+    return cfg, W.prov(cfg).arg_terms(svc[0][0])[1]
+
+
 def c16(rep, W, rule="C16"):
     # ROUTES
     rs = routes(W)
-    api = W.body(WD.SERVER + "::api::api_scope")
-    pv = W.prov(api)
-    registered = []
-    for bb, t in api.calls():
-        if t["callee"].get("def") == "actix_web::scope::Scope::<T>::service":
-            registered.append(unit_struct_name(pv.arg_terms(bb)[1]))
+    api, root = registration_tree(W)
+    # route factories registered anywhere in the registration tree of WebServer::config (the nested api scope of the
+    # pinned tree is spliced into it, see load.SPLICE_BASELINE)
+    registered = [unit_struct_name(x[3][1]) for x in P.walk(root) if x[0] == "call" and x[1] == SCOPE_SERVICE and len(x[3]) > 1] if root else []
+    registered = [x for x in registered if x and "::api::" in x]
     facts_api = sorted(r["factory"] for r in rs if "::api::" in r["factory"])
-    rep.ob(rule + ".ROUTES", ("api_scope", "registered==factories"), sorted(x for x in registered if x) == facts_api and len(registered) == len(facts_api),
-           "services registered in api_scope(): %s; route factories defined in server::api: %s" % (registered, facts_api), where(api))
+    rep.ob(rule + ".ROUTES", ("api_scope", "registered==factories"), sorted(registered) == facts_api and len(registered) == len(facts_api),
+           "protocol services registered under WebServer::config: %s; route factories defined in server::api: %s" % (registered, facts_api), where(api))
     rep.floor(rule + ".ROUTES", "protocol routes", len(facts_api), 4)
     known = set("%s::api::%s::service" % (WD.SERVER, mth) for mth in WD.HANDLER_MODULES)
     rep.ob(rule + ".ROUTES", ("api", "every-factory-has-rules"), set(facts_api) == known,
@@ -990,12 +1055,15 @@ def c20(rep, W, rule="C20"):
     svc = S.sites_of(cfg, "actix_web::config::ServiceConfig::service")
     rep.ob(rule + ".WRAP", (S.short_fn(cfg), "single-registration"), len(svc) == 1, "%d cfg.service(..) call(s) in WebServer::config" % len(svc), where(cfg))
     nserv = 0
+    root_wrap_bbs = set()      # `.wrap(..)` calls on the ROOT scope's own builder chain (not on a nested scope)
     if len(svc) == 1:
         t = pv.arg_terms(svc[0][0])[1]
         chain = []
         wrapped = None
         while t[0] == "call" and t[1].startswith("actix_web::scope::Scope::<T>::"):
             chain.append((t[1].split("::")[-1], t[3][1:]))
+            if t[1].endswith("::wrap"):
+                root_wrap_bbs.add(t[2])
             t = t[3][0]
         root_ok = t[0] == "call" and t[1] == "actix_web::web::scope" and const_str(t[3][0]) == ""
         rep.ob(rule + ".WRAP", (S.short_fn(cfg), "root-scope"), root_ok, "the registered service is a web::scope(\"\") chain (root: %s)" % P.show(t)[:80], where(cfg))
@@ -1016,6 +1084,8 @@ def c20(rep, W, rule="C20"):
         rep.ob(rule + ".WRAP", (S.short_fn(cfg), "no-store-default-header"), okw,
                "%s; the scope must be wrapped with a default Cache-Control header containing the no-store directive" % det, where(cfg))
         rep.floor(rule + ".WRAP", "services inside the wrapped scope", nserv, 2, where(cfg))
+    fac0 = app_factory(W)
+    FAC0_KEY = fac0.key if fac0 is not None else "?"
     # ONLY: registrations anywhere in the workspace are the enumerated ones
     REG = ("actix_web::app::App::<T>::service", "actix_web::app::App::<T>::route", "actix_web::app::App::<T>::default_service",
            "actix_web::app::App::<T>::configure", "actix_web::app::App::<T>::external_resource",
@@ -1025,9 +1095,8 @@ def c20(rep, W, rule="C20"):
            "actix_web::scope::Scope::<T>::configure")
     allowed = {
         (WD.SERVER + "::WebServer::config", "actix_web::config::ServiceConfig::service"): 1,
-        (WD.SERVER + "::WebServer::config", "actix_web::scope::Scope::<T>::service"): 2,
-        (WD.SERVER + "::api::api_scope", "actix_web::scope::Scope::<T>::service"): 4,
-        ("bin:" + WD.SERVER + "::main::{closure#0}::{closure#0}", "actix_web::app::App::<T>::configure"): 1,
+        (WD.SERVER + "::WebServer::config", "actix_web::scope::Scope::<T>::service"): 6,
+        (FAC0_KEY, "actix_web::app::App::<T>::configure"): 1,
     }
     found = {}
     for b in W.prog.bodies.values():
@@ -1038,13 +1107,23 @@ def c20(rep, W, rule="C20"):
     for k, n in sorted(found.items()):
         rep.ob(rule + ".ONLY", (k[0].split("::")[-1] if "closure" not in k[0] else "main-app-factory", k[1].split("::")[-1], k[0][-50:]), k in allowed and n <= allowed[k] or (k in allowed and k[1].endswith("Scope::<T>::service")),
                "%d %s registration(s) in %s%s" % (n, k[1], k[0], "" if k in allowed else " -- not in the enumerated set: a service outside the no-store scope"))
+    # every Scope::service / Scope::route registration site is part of the registration tree rooted at the wrapped scope
+    _cfg, root = registration_tree(W)
+    inside = P.call_sites(root) if root else set()
+    for b in W.prog.bodies.values():
+        for bb, t in b.calls():
+            d = t["callee"].get("def", "")
+            if d.startswith("actix_web::scope::Scope::<T>::") and d in REG:
+                rep.ob(rule + ".ONLY", (S.short_fn(b), "inside-wrapped-scope", S.ordinal_key(b, d, bb)), b.key == cfg.key and bb in inside,
+                       "%s at line %d is %s the registration tree of the no-store scope" % (d.split("::")[-1], b.line_of_block(bb), "part of" if b.key == cfg.key and bb in inside else "NOT part of"),
+                       where(b, bb), nontrivial=False)
     # MIDDLEWARE: DefaultHeaders decorates only `Ok` responses that come back through it; an Err returned by a middleware
     # registered *inside* the scope, or a response built by one registered anywhere, is not covered by the argument.
     # Every middleware registration in the workspace must therefore be one of the enumerated, individually justified ones.
     MW = ("wrap", "wrap_fn")
     allowed_mw = {
         (WD.SERVER + "::WebServer::config", "actix_web::scope::Scope::<T>::wrap"): "the DefaultHeaders(no-store) wrapper itself (checked by C20.WRAP)",
-        ("bin:" + WD.SERVER + "::main::{closure#0}::{closure#0}", "actix_web::app::App::<T>::wrap"):
+        (FAC0_KEY, "actix_web::app::App::<T>::wrap"):
             "ErrorHandlers(500 -> print_error, which returns the same response) and Logger (does not build responses); both outside the scope, "
             "so they only ever see responses that already carry the header",
     }
@@ -1055,39 +1134,50 @@ def c20(rep, W, rule="C20"):
             if d.startswith("actix_web::") and d.split("::")[-1] in MW:
                 nmw += 1
                 okm = (b.key, d) in allowed_mw
+                if okm and d.endswith("Scope::<T>::wrap"):
+                    # only the root scope's own DefaultHeaders wrapper: a wrap on a nested scope sits INSIDE the header scope
+                    w = W.prov(b).arg_terms(bb)[1]
+                    okm = bb in root_wrap_bbs and m(call("actix_web::middleware::default_headers::DefaultHeaders::add",
+                                                         call("actix_web::middleware::default_headers::DefaultHeaders::new"), ANY), w) is not None
                 rep.ob(rule + ".MIDDLEWARE", (S.short_fn(b), d.split("::")[-2] + "::" + d.split("::")[-1], S.ordinal_key(b, d, bb)), okm,
                        "middleware registered via %s in %s: %s" % (d, b.deff, allowed_mw.get((b.key, d), "NOT an enumerated middleware -- a middleware inside the no-store scope can "
                                                                    "return an Err (or build a response) that bypasses DefaultHeaders, which only decorates Ok responses passing through it")),
                        where(b, bb))
     rep.floor(rule + ".MIDDLEWARE", "middleware registrations scanned", nmw, 1)
     # the two App::wrap arguments are the expected middlewares
-    fac0 = W.prog.bodies.get("bin:" + WD.SERVER + "::main::{closure#0}::{closure#0}")
+    eh_body = None
+    kinds_seen = []
     if fac0 is not None:
         pvf = W.prov(fac0)
-        kinds = []
+        kinds = kinds_seen
         for bb, t in fac0.calls():
             if t["callee"].get("def") == "actix_web::app::App::<T>::wrap":
                 a = pvf.arg_terms(bb)[1]
                 if a[0] == "call" and a[1] == "actix_web::middleware::err_handlers::ErrorHandlers::<B>::handler":
-                    kinds.append("ErrorHandlers->" + (a[3][2][1].split("::")[-1] if a[3][2][0] == "fn" else "?"))
+                    kinds.append("ErrorHandlers")
+                    eh_body = _fn_arg_body(W, fac0, a[3][2])
                 elif a[0] == "call" and a[1] == "core::default::Default::default" and fac0.blocks[a[2]]["term"]["callee"].get("resolved", "").startswith("<actix_web::middleware::logger::Logger"):
                     kinds.append("Logger")
                 else:
                     kinds.append("?" + P.show(a)[:60])
-        rep.ob(rule + ".MIDDLEWARE", ("main-app-factory", "outer-middlewares"), sorted(kinds) == ["ErrorHandlers->print_error", "Logger"],
-               "middlewares around the application: %s (expected ErrorHandlers with print_error, and Logger)" % kinds, where(fac0))
+        rep.ob(rule + ".MIDDLEWARE", ("main-app-factory", "outer-middlewares"), sorted(kinds) == ["ErrorHandlers", "Logger"],
+               "middlewares around the application: %s (expected ErrorHandlers and Logger)" % kinds, where(fac0))
     # the app factory's configure closure calls exactly WebServer::config
-    fac = W.prog.bodies.get("bin:" + WD.SERVER + "::main::{closure#0}::{closure#0}::{closure#0}")
+    fac = app_configure(W, fac0)
     okf = fac is not None and [t["callee"].get("def") for _, t in fac.calls()] == [WD.SERVER + "::WebServer::config"]
     rep.ob(rule + ".ONLY", ("main", "configure-calls-WebServer::config"), okf, "App::configure closure calls %s" % ([t["callee"].get("def") for _, t in fac.calls()] if fac else None))
     # print_error returns the same response
-    pe = W.prog.bodies.get("bin:" + WD.SERVER + "::print_error")
+    # the error handler (a function item or a closure) returns the response it was given
+    pe = eh_body
     if pe is not None:
+        resp_param = ("param", 2 if pe.kind == "Closure" else 1, ANY)
         okp = False
         for site, term in S.exits(W, pe):
-            mm = m(pat.adt("Result", "Ok", ("0", pat.adt("ErrorHandlerResponse", "Response", ("0", call("actix_web::service::ServiceResponse::<B>::map_into_left_body", ("param", 1, ANY)))))), term)
+            mm = m(pat.adt("Result", "Ok", ("0", pat.adt("ErrorHandlerResponse", "Response", ("0", call("actix_web::service::ServiceResponse::<B>::map_into_left_body", resp_param))))), term)
             okp = okp or mm is not None
         rep.ob(rule + ".ONLY", ("print_error", "passes-response-through"), okp, "the 500 error handler returns the very response it was given (headers intact)", where(pe))
+    elif "ErrorHandlers" in kinds_seen:
+        rep.fail(rule + ".ONLY", ("print_error", "passes-response-through"), "the 500 error handler is not a statically known function or closure")
     # NOOVERRIDE: no other header insertion names cache-control
     bad = []
     n_hdr = 0
